@@ -101,7 +101,7 @@ public:
     {
     }
 
-    key_value(key_value&& member, const allocator_type& alloc) noexcept
+    key_value(key_value&& member, const allocator_type& alloc) // may allocate when alloc differs from member's allocator
         : key_(std::move(member.key_), alloc), value_(std::move(member.value_), alloc)
     {
     }
